@@ -5,9 +5,11 @@ package main
 import (
 	"context"
 	"encoding/json"
+	"errors"
 	"fmt"
 	"reflect"
 	"sort"
+	"strconv"
 
 	"github.com/cloudwego/eino/compose"
 	"github.com/cloudwego/eino/schema"
@@ -24,22 +26,34 @@ type CV struct {
 	Tag  int            `json:"tag,omitempty"`
 	P    int            `json:"p,omitempty"`
 	M    map[string]*CV `json:"m,omitempty"`
-	MT   int            `json:"mt,omitempty"` // map: 0 map[string]any, 1 map[string]string (every value a str), 2 map[string]int (every value an int)
+	MT   int            `json:"mt,omitempty"` // map: 0 map[string]any, 1 map[string]string (every value a str), 2 map[string]int (every value an int), 3 map[int]string (keys in decimal)
+	// map: the Go value is the typed nil map (the model does not distinguish it from the empty map)
+	NilMap bool `json:"nilmap,omitempty"`
 }
 
 // unregistered types ("other", by tag): 0 S0, 1 S1 (structs), 2 MyStr (named string),
 // 3 MyInt (named int), 4 *S0, 5 *S1. Payload p = 0 is the zero value of the type.
 // Types with a concat function registered by this harness (user.go): 6 Acc, 7 Lim.
 // 8 []string (p = 0 nil, p = 1 empty but not nil, p > 1 p-1 elements; a slice is the zero Value iff nil).
+// 9 Num (user.go): an INTERFACE type with a function registered for the interface type; p = Val(),
+// S = "A" NumA(p), "B" NumB{p}, "" the nil Num (p = 0). Only used as the static chunk type of a stream.
 type S0 struct{ A int }
 type S1 struct{ B int }
 type MyStr string
 type MyInt int
 
-const nOtherTags = 9
+const nOtherTags = 10
 
-func otherToGo(tag, p int) any {
+func otherToGo(tag, p int, variant string) any {
 	switch tag {
+	case 9:
+		switch {
+		case variant == "B":
+			return NumB{V: p}
+		case variant == "A" || p != 0:
+			return NumA(p)
+		}
+		return nil
 	case 0:
 		return S0{A: p}
 	case 1:
@@ -95,8 +109,30 @@ func (v *CV) toGo() any {
 	case "nil":
 		return nil
 	case "other":
-		return otherToGo(v.Tag, v.P)
+		return otherToGo(v.Tag, v.P, v.S)
 	case "map":
+		if v.NilMap {
+			switch v.MT {
+			case 1:
+				return map[string]string(nil)
+			case 2:
+				return map[string]int(nil)
+			case 3:
+				return map[int]string(nil)
+			}
+			return map[string]any(nil)
+		}
+		if v.MT == 3 {
+			m := make(map[int]string, len(v.M))
+			for k, e := range v.M {
+				n, err := strconv.Atoi(k)
+				if err != nil {
+					panic("bad CV: map[int]string key " + k)
+				}
+				m[n] = e.S
+			}
+			return m
+		}
 		if v.MT == 1 {
 			m := make(map[string]string, len(v.M))
 			for k, e := range v.M {
@@ -166,6 +202,16 @@ func fromGo(x any) *CV {
 		return &CV{K: "other", Tag: 6, P: t.N}
 	case Lim:
 		return &CV{K: "other", Tag: 7, P: t.N}
+	case NumA:
+		return &CV{K: "other", Tag: 9, P: int(t), S: "A"}
+	case NumB:
+		return &CV{K: "other", Tag: 9, P: t.V, S: "B"}
+	case map[int]string:
+		m := map[string]*CV{}
+		for k, e := range t {
+			m[strconv.Itoa(k)] = &CV{K: "str", S: e}
+		}
+		return &CV{K: "map", MT: 3, M: m}
 	case []string:
 		if t == nil {
 			return &CV{K: "other", Tag: 8, P: 0}
@@ -234,6 +280,23 @@ type Case struct {
 	Typed  bool     `json:"typed,omitempty"` // msgmap: static type map[string]*schema.Message instead of map[string]any
 	Any    bool     `json:"any,omitempty"`   // generic: the static chunk type is any (interface-typed stream)
 	Fanin  bool     `json:"fanin,omitempty"` // msgmap: every chunk holds one message under one key; also run as a compose fan-in
+	// generic (not any) / msg: the reader reports a read error in front of chunk ErrAt (0..len); only the
+	// stream-level entry points are run
+	ErrAt *int `json:"err_at,omitempty"`
+}
+
+// coqItems: what the reader delivers as a list of sitem (Model/ConcatStream.v)
+func coqItems(terms []string, errAt int) string {
+	var out []string
+	for i := 0; i <= len(terms); i++ {
+		if i == errAt {
+			out = append(out, "SErr")
+		}
+		if i < len(terms) {
+			out = append(out, "(SVal "+terms[i]+")")
+		}
+	}
+	return lib.CoqList(out)
 }
 
 type Obs struct {
@@ -242,15 +305,14 @@ type Obs struct {
 	Msg   string `json:"msg,omitempty"`
 }
 
-func concatTyped[T any](vals []any) (out any, err error) {
+func concatTyped[T any](vals []any, errAt int) (out any, err error) {
 	items := make([]T, len(vals))
 	for i, v := range vals {
 		if v != nil {
 			items[i] = v.(T)
 		}
 	}
-	sr := schema.StreamReaderFromArray(items)
-	return compose.VerifConcatStreamReader(sr)
+	return compose.VerifConcatStreamReader(streamOf(items, errAt))
 }
 
 // concatAnyGo runs concatStreamReader[any] on the chunk list (chunks of any dynamic type, nil included).
@@ -273,8 +335,42 @@ func concatAnyGo(chunks []*CV) (o Obs) {
 	return Obs{Class: "val", Val: fromGo(out)}
 }
 
+// isNumCase: the static chunk type is the interface type Num (every chunk has tag 9)
+func isNumCase(chunks []*CV) bool {
+	return len(chunks) > 0 && chunks[0].K == "other" && chunks[0].Tag == 9
+}
+
+// renderNum: the nil Num is payload 0 of tag 9
+func renderNum(o Obs) Obs {
+	if o.Class == "val" && o.Val.K == "nil" {
+		o.Val = &CV{K: "other", Tag: 9}
+	}
+	return o
+}
+
 // concatGo runs concatStreamReader on the chunk list at its static type.
-func concatGo(chunks []*CV) (o Obs) {
+func concatGo(chunks []*CV) (o Obs) { return concatGoErr(chunks, -1) }
+
+// streamOf: the chunks as a stream; errAt >= 0 puts a read error in front of chunk errAt
+func streamOf[T any](items []T, errAt int) *schema.StreamReader[T] {
+	if errAt < 0 {
+		return schema.StreamReaderFromArray(items)
+	}
+	sr, sw := schema.Pipe[T](len(items) + 2)
+	for i := 0; i <= len(items); i++ {
+		if i == errAt {
+			var zero T
+			sw.Send(zero, errors.New("harness: read error"))
+		}
+		if i < len(items) {
+			sw.Send(items[i], nil)
+		}
+	}
+	sw.Close()
+	return sr
+}
+
+func concatGoErr(chunks []*CV, errAt int) (o Obs) {
 	vals := make([]any, len(chunks))
 	for i, c := range chunks {
 		vals[i] = c.toGo()
@@ -283,44 +379,50 @@ func concatGo(chunks []*CV) (o Obs) {
 	var err error
 	p := lib.Recover(func() {
 		if len(chunks) == 0 {
-			out, err = concatTyped[string](vals)
+			out, err = concatTyped[string](vals, errAt)
+			return
+		}
+		if isNumCase(chunks) {
+			out, err = concatTyped[Num](vals, errAt)
 			return
 		}
 		switch vals[0].(type) {
 		case string:
-			out, err = concatTyped[string](vals)
+			out, err = concatTyped[string](vals, errAt)
 		case int:
-			out, err = concatTyped[int](vals)
+			out, err = concatTyped[int](vals, errAt)
 		case int64:
-			out, err = concatTyped[int64](vals)
+			out, err = concatTyped[int64](vals, errAt)
 		case bool:
-			out, err = concatTyped[bool](vals)
+			out, err = concatTyped[bool](vals, errAt)
 		case float64:
-			out, err = concatTyped[float64](vals)
+			out, err = concatTyped[float64](vals, errAt)
 		case S0:
-			out, err = concatTyped[S0](vals)
+			out, err = concatTyped[S0](vals, errAt)
 		case S1:
-			out, err = concatTyped[S1](vals)
+			out, err = concatTyped[S1](vals, errAt)
 		case MyStr:
-			out, err = concatTyped[MyStr](vals)
+			out, err = concatTyped[MyStr](vals, errAt)
 		case MyInt:
-			out, err = concatTyped[MyInt](vals)
+			out, err = concatTyped[MyInt](vals, errAt)
 		case *S0:
-			out, err = concatTyped[*S0](vals)
+			out, err = concatTyped[*S0](vals, errAt)
 		case *S1:
-			out, err = concatTyped[*S1](vals)
+			out, err = concatTyped[*S1](vals, errAt)
 		case Acc:
-			out, err = concatTyped[Acc](vals)
+			out, err = concatTyped[Acc](vals, errAt)
 		case Lim:
-			out, err = concatTyped[Lim](vals)
+			out, err = concatTyped[Lim](vals, errAt)
 		case []string:
-			out, err = concatTyped[[]string](vals)
+			out, err = concatTyped[[]string](vals, errAt)
 		case map[string]string:
-			out, err = concatTyped[map[string]string](vals)
+			out, err = concatTyped[map[string]string](vals, errAt)
 		case map[string]int:
-			out, err = concatTyped[map[string]int](vals)
+			out, err = concatTyped[map[string]int](vals, errAt)
 		case map[string]any:
-			out, err = concatTyped[map[string]any](vals)
+			out, err = concatTyped[map[string]any](vals, errAt)
+		case map[int]string:
+			out, err = concatTyped[map[int]string](vals, errAt)
 		default:
 			panic("harness: unsupported top-level chunk type")
 		}
@@ -331,12 +433,16 @@ func concatGo(chunks []*CV) (o Obs) {
 	if err != nil {
 		return Obs{Class: "err", Msg: err.Error()}
 	}
-	return Obs{Class: "val", Val: fromGo(out)}
+	o = Obs{Class: "val", Val: fromGo(out)}
+	if isNumCase(chunks) {
+		o = renderNum(o)
+	}
+	return o
 }
 
 // concatViaChain: the same chunk list as the output stream of a streamable lambda in a
 // compiled chain called with Invoke (the engine has to turn the stream into a value).
-func concatViaChain[T any](chunks []*CV) (o Obs) {
+func concatViaChain[T any](chunks []*CV, errAt int) (o Obs) {
 	items := make([]T, len(chunks))
 	for i, c := range chunks {
 		if v := c.toGo(); v != nil {
@@ -349,7 +455,7 @@ func concatViaChain[T any](chunks []*CV) (o Obs) {
 		ctx := context.Background()
 		ch := compose.NewChain[string, T]()
 		ch.AppendLambda(compose.StreamableLambda(func(ctx context.Context, in string) (*schema.StreamReader[T], error) {
-			return schema.StreamReaderFromArray(items), nil
+			return streamOf(items, errAt), nil
 		}))
 		r, cerr := ch.Compile(ctx)
 		if cerr != nil {
@@ -363,7 +469,11 @@ func concatViaChain[T any](chunks []*CV) (o Obs) {
 	if err != nil {
 		return Obs{Class: "err", Msg: err.Error()}
 	}
-	return Obs{Class: "val", Val: fromGo(any(out))}
+	o = Obs{Class: "val", Val: fromGo(any(out))}
+	if isNumCase(chunks) {
+		o = renderNum(o)
+	}
+	return o
 }
 
 func (o Obs) coq() string {
@@ -426,16 +536,18 @@ const (
 	tdMapAny
 	tdMapStr
 	tdMapInt
+	tdMapIK // map[int]string
 	tdNil
 	nTD
+	tdNum = nTD // the interface type Num: only as the static chunk type of a stream
 )
 
 // same reflect.Kind, different Go type
 var sibling = map[int]int{tdStr: tdMyStr, tdMyStr: tdStr, tdInt: tdMyInt, tdMyInt: tdInt, tdS0: tdS1, tdS1: tdAcc,
-	tdPS0: tdPS1, tdPS1: tdPS0, tdMapAny: tdMapStr, tdMapStr: tdMapInt, tdMapInt: tdMapAny, tdAcc: tdLim, tdLim: tdS0}
+	tdPS0: tdPS1, tdPS1: tdPS0, tdMapAny: tdMapStr, tdMapStr: tdMapInt, tdMapInt: tdMapIK, tdMapIK: tdMapAny, tdAcc: tdLim, tdLim: tdS0}
 
 var tdNames = []string{"string", "int", "int64", "bool", "float64", "S0", "S1", "MyStr", "MyInt", "*S0", "*S1", "Acc", "Lim", "[]string",
-	"map[string]any", "map[string]string", "map[string]int", "nil"}
+	"map[string]any", "map[string]string", "map[string]int", "map[int]string", "nil", "Num"}
 
 func genVal(r *lib.Rng, td, depth int) *CV {
 	payload := []int{0, 0, 1, 2}[r.Intn(4)]
@@ -453,12 +565,30 @@ func genVal(r *lib.Rng, td, depth int) *CV {
 	case tdAcc, tdLim:
 		// registered custom types: payloads 0..3 (Lim fails when the sum exceeds 5)
 		return &CV{K: "other", Tag: map[int]int{tdAcc: 6, tdLim: 7}[td], P: r.Intn(4)}
+	case tdNum:
+		p := r.Intn(4)
+		return &CV{K: "other", Tag: 9, P: p, S: []string{"", "A", "B", "A"}[r.Intn(4)]}
 	case tdMapAny:
 		if depth <= 0 {
 			return &CV{K: "map", M: map[string]*CV{}}
 		}
+		if r.Chance(1, 12) {
+			return &CV{K: "map", NilMap: true}
+		}
 		return genMap(r, depth-1, map[string]int{})
+	case tdMapIK:
+		if r.Chance(1, 10) {
+			return &CV{K: "map", MT: 3, NilMap: true}
+		}
+		m := map[string]*CV{}
+		for j, nk := 0, r.Intn(3); j < nk; j++ {
+			m[r.Pick([]string{"0", "1", "-7", "42"})] = &CV{K: "str", S: r.Pick(strPool)}
+		}
+		return &CV{K: "map", MT: 3, M: m}
 	case tdMapStr:
+		if r.Chance(1, 10) {
+			return &CV{K: "map", MT: 1, NilMap: true}
+		}
 		m := map[string]*CV{}
 		for j, nk := 0, r.Intn(3); j < nk; j++ {
 			m[r.Pick(keyPool)] = &CV{K: "str", S: r.Pick(strPool)}
@@ -479,6 +609,9 @@ func genVal(r *lib.Rng, td, depth int) *CV {
 // the same reflect.Kind (string vs named string, S0 vs S1, *S0 vs *S1, map[string]any vs
 // map[string]string, int vs named int).
 func genMap(r *lib.Rng, depth int, keyTypes map[string]int) *CV {
+	if r.Chance(1, 25) {
+		return &CV{K: "map", NilMap: true}
+	}
 	m := map[string]*CV{}
 	nk := r.Intn(4)
 	for j := 0; j < nk; j++ {
@@ -518,6 +651,9 @@ func genGeneric(r *lib.Rng, tier string) *Case {
 	top := tdMapAny
 	if r.Chance(2, 5) {
 		top = r.Intn(nTD - 1) // every type but nil
+		if r.Chance(1, 8) {
+			top = tdNum
+		}
 	}
 	c.Chain = r.Chance(1, 3)
 	if r.Chance(1, 6) {
@@ -554,6 +690,10 @@ func genGeneric(r *lib.Rng, tier string) *Case {
 			c.Chunks = append(c.Chunks, genVal(r, top, depth))
 		}
 	}
+	if r.Chance(1, 14) {
+		k := r.Intn(n + 1)
+		c.ErrAt = &k
+	}
 	return c
 }
 
@@ -587,6 +727,9 @@ func (engine) Run(ci any) lib.Result {
 	if c.Kind != "generic" {
 		return runMsg(c)
 	}
+	if c.ErrAt != nil && !c.Any {
+		return runGenericErr(c)
+	}
 	res := lib.Result{}
 	concatGo := concatGo
 	if c.Any {
@@ -616,25 +759,15 @@ func (engine) Run(ci any) lib.Result {
 	// concatenation's: such cases are not sent through the chain)
 	if len(c.Chunks) > 0 && c.Chain && c.Any && !(o.Class == "val" && o.Val.K == "nil") {
 		res.Tags = append(res.Tags, "api:chain.Invoke")
-		if oc := concatViaChain[any](c.Chunks); !obsEqual(o, oc) {
+		if oc := concatViaChain[any](c.Chunks, -1); !obsEqual(o, oc) {
 			res.Oracle = "chain.Invoke and concatStreamReader disagree: " + js(oc) + " vs " + js(o)
 			res.Sig = "generic-api-disagree"
 		}
 	}
 	if len(c.Chunks) > 0 && c.Chain && !c.Any {
-		var oc Obs
-		known := true
-		switch c.Chunks[0].toGo().(type) {
-		case string:
-			oc = concatViaChain[string](c.Chunks)
-		case map[string]any:
-			oc = concatViaChain[map[string]any](c.Chunks)
-		case Acc:
-			oc = concatViaChain[Acc](c.Chunks)
-		case S0:
-			oc = concatViaChain[S0](c.Chunks)
-		default:
-			known = false
+		oc, known := chainTyped(c.Chunks, -1)
+		if isNumCase(c.Chunks) && o.Class == "val" && o.Val.S == "" {
+			known = false // the nil Num as a node's whole output is the graph engine's business
 		}
 		if known {
 			res.Tags = append(res.Tags, "api:chain.Invoke")
@@ -692,6 +825,63 @@ func (engine) Run(ci any) lib.Result {
 	return res
 }
 
+// chainTyped: the chunk list through a compiled chain at its static type (a few types only)
+func chainTyped(chunks []*CV, errAt int) (Obs, bool) {
+	if isNumCase(chunks) {
+		return concatViaChain[Num](chunks, errAt), true
+	}
+	switch chunks[0].toGo().(type) {
+	case string:
+		return concatViaChain[string](chunks, errAt), true
+	case map[string]any:
+		return concatViaChain[map[string]any](chunks, errAt), true
+	case map[int]string:
+		return concatViaChain[map[int]string](chunks, errAt), true
+	case Acc:
+		return concatViaChain[Acc](chunks, errAt), true
+	case S0:
+		return concatViaChain[S0](chunks, errAt), true
+	}
+	return Obs{}, false
+}
+
+// runGenericErr: a statically typed stream whose reader reports a read error: every
+// stream-level entry point must return an error (never a value, never a panic).
+func runGenericErr(c *Case) lib.Result {
+	res := lib.Result{}
+	at := *c.ErrAt
+	if at < 0 || at > len(c.Chunks) {
+		at = len(c.Chunks)
+	}
+	o := concatGoErr(c.Chunks, at)
+	res.Obs = o
+	res.Tags = []string{"kind:generic", "class:" + o.Class, fmt.Sprintf("chunks:%d", len(c.Chunks)), "feat:read-error"}
+	res.Nontrivial = len(c.Chunks) >= 2
+	res.CoqTerm = lib.CoqApp("CaseGenS", coqItems(mapCoq(c.Chunks), at), o.coq())
+	check := func(name string, o Obs) {
+		if res.Oracle != "" {
+			return
+		}
+		switch o.Class {
+		case "panic":
+			res.Oracle = name + " panicked on a stream with a read error: " + o.Msg
+			res.Sig = "generic-panic"
+		case "val":
+			res.Oracle = fmt.Sprintf("%s returned a value although the reader reported an error in front of chunk %d: %s", name, at, js(o))
+			res.Sig = "read-error-ignored"
+		}
+	}
+	check("concatStreamReader", o)
+	check("concatStreamReader (second run)", concatGoErr(c.Chunks, at))
+	if len(c.Chunks) > 0 && c.Chain {
+		if oc, known := chainTyped(c.Chunks, at); known {
+			res.Tags = append(res.Tags, "api:chain.Invoke")
+			check("chain.Invoke", oc)
+		}
+	}
+	return res
+}
+
 // goTypeName: the Go type a CV stands for ("" for nil)
 func goTypeName(v *CV) string {
 	switch v.K {
@@ -700,7 +890,7 @@ func goTypeName(v *CV) string {
 	case "num":
 		return []string{"int", "int64", "bool", "float64"}[v.Kind]
 	case "other":
-		return []string{"S0", "S1", "MyStr", "MyInt", "*S0", "*S1", "Acc", "Lim", "[]string"}[v.Tag]
+		return []string{"S0", "S1", "MyStr", "MyInt", "*S0", "*S1", "Acc", "Lim", "[]string", "Num"}[v.Tag]
 	case "map":
 		if v.MT == 1 {
 			return "map[string]string"
@@ -708,13 +898,16 @@ func goTypeName(v *CV) string {
 		if v.MT == 2 {
 			return "map[string]int"
 		}
+		if v.MT == 3 {
+			return "map[int]string"
+		}
 		return "map[string]any"
 	}
 	return ""
 }
 
 var kindOf = map[string]string{"string": "string", "MyStr": "string", "int": "int", "MyInt": "int", "S0": "struct", "S1": "struct",
-	"*S0": "ptr", "*S1": "ptr", "Acc": "struct", "Lim": "struct", "[]string": "slice", "map[string]any": "map", "map[string]string": "map", "map[string]int": "map", "int64": "int64", "bool": "bool", "float64": "float64"}
+	"*S0": "ptr", "*S1": "ptr", "Acc": "struct", "Lim": "struct", "[]string": "slice", "map[string]any": "map", "map[string]string": "map", "map[string]int": "map", "map[int]string": "map", "Num": "interface", "int64": "int64", "bool": "bool", "float64": "float64"}
 
 // clashTags reports whether some key (at any depth, following the first map per key) holds
 // values of different Go types, and whether two of them share a reflect.Kind.
